@@ -75,6 +75,8 @@ def cases(tier):
         if k not in seen:
             seen.add(k)
             uniq.append(c)
+    for n in (70, 300) if tier == "quick" else (70, 130, 300, 600):
+        uniq.append({"mode": "big", "n": n})
     # E1s: explicit-state BFS over link topologies (de-duplicated on the canonical state), then every removal
     if tier == "quick":
         plan = [("mini", 2, "linking", "removing-name")]
@@ -112,8 +114,89 @@ def post(r, s, m_prev, m, op, tk, prev_map):
     return True
 
 
+def run_big(case, r):
+    """subtrees and link lists that are NOT small: a source / section with several hundred children, link lists with
+    dozens of members that all disappear in one delete, members at two- and three-digit positions"""
+    import numpy as np
+    import nixio as nix
+    from mc import env as E
+    n = case["n"]
+    E.install_seams()
+    E.reset_execution()
+    path = E.fresh_path("c04big_")
+    f = nix.File.open(path, nix.FileMode.Overwrite)
+    try:
+        b = f.create_block("blk", "t")
+        keep = b.create_source("keep", "t")
+        parent = b.create_source("parent", "t")
+        da = b.create_data_array("sig", "t", data=np.array([1.0]))
+        tag = b.create_tag("tag", "t", [0.0])
+        grp = b.create_group("grp", "t")
+        da.sources.append(keep)
+        kids = []
+        for i in range(n):
+            k = parent.create_source("kid%03d" % i, "t")
+            kids.append(k.id)
+            if i < 5 or i % 4 == 0:
+                da.sources.append(k)            # long link list: n/4 members that all go at once
+            if i in (0, 1, n // 2, n - 1):
+                tag.sources.append(k)
+            if i % 50 == 0:
+                k.create_source("deep", "t")
+                grp.sources.append(k.sources["deep"])
+        sec = f.create_section("root", "t")
+        skeep = f.create_section("skeep", "t")
+        for i in range(n):
+            s_ = sec.create_section("sub%03d" % i, "t")
+            s_.create_property("p", [i])
+            if i in (0, 1, 63, 64, 255, 256, n - 1):
+                b.create_data_array("m%03d" % i, "t", data=np.array([float(i)])).metadata = s_
+        da.metadata = skeep
+        nlinks = len(da.sources)
+        r.evals += 1
+        r.nontrivial += 1
+        del b.sources["parent"]
+        del f.sections["root"]
+        for stage in ("in-session", "after-reopen"):
+            b = f.blocks["blk"]
+            da = b.data_arrays["sig"]
+            left = [s_.name for s_ in da.sources]
+            tl = [s_.name for s_ in b.tags["tag"].sources]
+            gl = [s_.name for s_ in b.groups["grp"].sources]
+            r.transitions += 4
+            if left != ["keep"] or tl or gl:
+                r.viol("C04|big|delete-source-with-%d-children|%s|links-to-deleted-sources-remain" % (n, stage),
+                       "after deleting a source with %d children the array still lists %d of its %d source links (%s ...), the tag %d, the group %d" % (
+                           n, len(left), nlinks, left[:4], len(tl), len(gl)), {})
+                return
+            metas = [(a.name, None if a.metadata is None else a.metadata.name) for a in b.data_arrays]
+            if any(m_ is not None and nm != "sig" for nm, m_ in metas) or dict(metas)["sig"] != "skeep":
+                r.viol("C04|big|delete-section-with-%d-children|%s|metadata-links-wrong" % (n, stage),
+                       "after deleting a section with %d subsections: metadata links %r" % (n, [x for x in metas if x[1] is not None][:5]), {})
+                return
+            if [s_.name for s_ in b.sources] != ["keep"] or [s_.name for s_ in f.sections] != ["skeep"]:
+                r.viol("C04|big|%s|wrong-survivors" % stage, "sources %r sections %r" % ([s_.name for s_ in b.sources], [s_.name for s_ in f.sections]), {})
+                return
+            f.flush()
+            present = rawdigest.entity_ids(f._h5file)
+            gone = [k for k in kids if k in present]
+            if gone:
+                r.viol("C04|big|%s|raw-scan|deleted-entity-still-linked" % stage,
+                       "%d deleted sources are still reachable in the HDF5 file, e.g. at %s" % (len(gone), present[gone[0]][:2]), {})
+                return
+            f.close()
+            f = nix.File.open(path, nix.FileMode.ReadWrite)
+        r.traces = 1
+    finally:
+        E.safe_close(f)
+        E.rm(path)
+
+
 def run_case(case):
     r = R()
+    if case.get("mode") == "big":
+        run_big(case, r)
+        return r
     if case.get("mode") == "expand":
         bfs.expand_state("C04", case, r, CFG[case["cfg"]], post=post, reopen_modes=("rw",))
         return r
